@@ -13,7 +13,7 @@ import (
 )
 
 func init() {
-	register("C20", "Structural clauses behind codec and framing soundness: for Stat and Packet the struct tags, the embedded descriptor (decoded from the rawDesc literal), both marshal variants, UnmarshalVT and the field mentions of SizeVT/CloneVT/EqualVT agree field by field on number and wire type; decoding never stores a sub-slice of its input (no-retain analysis of the input parameter, through nested messages) and UnmarshalVTUnsafe has no caller; every slice of the input and every allocation sized by a decoded length is dominated by fatal bounds tests; the stream adapter reads only with io.ReadFull, uses one byte-order object and a 4-byte prefix on both sides, returns before touching the pool on a zero length, returns the pooled buffer only by defer, writes prefix and body in one Write, and its panicking type assertions are satisfiable by the message type the module sends (finding F7, fixed). The body of a frame is read into a buffer cut to the frame's length. Every length prefix is sized (SizeVT) and written (both marshal variants) from the length of the payload it precedes. Does not decide round-trip equality for all values nor absence of panics on arbitrary bytes (index arithmetic).", runC20)
+	register("C20", "Structural clauses behind codec and framing soundness: for Stat and Packet the struct tags, the embedded descriptor (decoded from the rawDesc literal), both marshal variants, UnmarshalVT and the field mentions of SizeVT/CloneVT/EqualVT agree field by field on number and wire type; decoding never stores a sub-slice of its input (no-retain analysis of the input parameter, through nested messages) and UnmarshalVTUnsafe has no caller; every slice of the input and every allocation sized by a decoded length is dominated by fatal bounds tests; the stream adapter reads only with io.ReadFull, uses one byte-order object and a 4-byte prefix on both sides, returns before touching the pool on a zero length, returns the pooled buffer only by defer, writes prefix and body in one Write, and its panicking type assertions are satisfiable by the message type the module sends (finding F7, fixed). The body of a frame is read into a buffer cut to the frame's length. Every length prefix is sized (SizeVT) and written (both marshal variants) from the length of the payload it precedes. Every varint loop of the generated decoders masks the input byte with 0x7F, advances the shift by 7, refuses a shift of 64 or more and ends on a byte below 0x80. Does not decide round-trip equality for all values nor absence of panics on arbitrary bytes (index arithmetic).", runC20)
 }
 
 func runC20(c *Ctx) {
@@ -23,6 +23,7 @@ func runC20(c *Ctx) {
 	r20_4(c, "R20.4")
 	r20_5(c, "R20.5")
 	r20_6(c, "R20.6")
+	r20_7(c, "R20.7")
 }
 
 type codecMsg struct {
@@ -784,4 +785,100 @@ func r20_6(c *Ctx, rule string) {
 func valueOf(in ssa.Instruction) ssa.Value {
 	v, _ := in.(ssa.Value)
 	return v
+}
+
+// R20.7: the constants of base-128 varint decoding.
+//
+// Every varint loop of the generated decoders has the same four constants:
+// seven payload bits per byte (mask 0x7F, step 7), the continuation bit 0x80,
+// and room for ten bytes (shift < 64). They are found by shape - a byte of the
+// input, masked, converted and shifted left by a loop variable - and held to
+// those values: a mask of 0xFF lets the continuation bit into every multi-byte
+// number, a guard of 63 refuses the tenth byte of a negative int64.
+func r20_7(c *Ctx, rule string) {
+	c.R.Rule(rule, "UnmarshalVT / UnmarshalVTUnsafe of Stat and Packet: every varint loop masks the input byte with 0x7F, advances the shift by 7, refuses a shift >= 64 and ends on a byte < 0x80")
+	total := 0
+	for _, m := range codecMsgs {
+		for _, meth := range []string{"UnmarshalVT", "UnmarshalVTUnsafe"} {
+			fn := c.P.Fn("types.(*" + m.typ + ")." + meth)
+			if fn == nil {
+				continue
+			}
+			c.R.Analysed(c.name(fn))
+			shifts := map[ssa.Value]bool{}
+			bytesIn := map[ssa.Value]bool{}
+			bad := []string{}
+			n := 0
+			eng.InstrsShallow(fn, func(in ssa.Instruction) {
+				sh, ok := in.(*ssa.BinOp)
+				if !ok || sh.Op != token.SHL {
+					return
+				}
+				v := sh.X
+				if cv, isCv := v.(*ssa.Convert); isCv {
+					v = cv.X
+				}
+				and, isAnd := v.(*ssa.BinOp)
+				if !isAnd || and.Op != token.AND {
+					return
+				}
+				k, isK := eng.ConstInt(and.Y)
+				if !isK {
+					return
+				}
+				bt, isB := and.X.Type().Underlying().(*types.Basic)
+				if !isB || bt.Kind() != types.Uint8 {
+					return
+				}
+				n++
+				shifts[sh.Y] = true
+				bytesIn[and.X] = true
+				if k != 0x7F {
+					bad = append(bad, fmt.Sprintf("%s: payload mask %#x (want 0x7f)", c.pos(and), k))
+				}
+			})
+			// shift amounts may be converted (uint -> uint64 shift count)
+			isShift := func(v ssa.Value) bool {
+				if shifts[v] {
+					return true
+				}
+				for s := range shifts {
+					if cv, ok := s.(*ssa.Convert); ok && cv.X == v {
+						return true
+					}
+				}
+				return false
+			}
+			eng.InstrsShallow(fn, func(in ssa.Instruction) {
+				b, ok := in.(*ssa.BinOp)
+				if !ok {
+					return
+				}
+				k, isK := eng.ConstInt(b.Y)
+				if !isK {
+					return
+				}
+				switch {
+				case isShift(b.X) && b.Op == token.ADD:
+					if k != 7 {
+						bad = append(bad, fmt.Sprintf("%s: shift step %d (want 7)", c.pos(b), k))
+					}
+				case isShift(b.X) && (b.Op == token.GEQ || b.Op == token.GTR || b.Op == token.LSS || b.Op == token.LEQ):
+					okGuard := (b.Op == token.GEQ && k == 64) || (b.Op == token.GTR && k == 63) || (b.Op == token.LSS && k == 64) || (b.Op == token.LEQ && k == 63)
+					if !okGuard {
+						bad = append(bad, fmt.Sprintf("%s: overflow guard `shift %s %d` (want shift >= 64)", c.pos(b), b.Op, k))
+					}
+				case bytesIn[b.X] && (b.Op == token.LSS || b.Op == token.GEQ || b.Op == token.LEQ || b.Op == token.GTR):
+					okCont := (b.Op == token.LSS && k == 0x80) || (b.Op == token.GEQ && k == 0x80) || (b.Op == token.LEQ && k == 0x7F) || (b.Op == token.GTR && k == 0x7F)
+					if !okCont {
+						bad = append(bad, fmt.Sprintf("%s: continuation test `b %s %#x` (want b < 0x80)", c.pos(b), b.Op, k))
+					}
+				}
+			})
+			total += n
+			sort.Strings(bad)
+			c.R.Check(len(bad) == 0, rule, c.name(fn)+"/varint-constants", c.P.Pos(fn.Pos()), fmt.Sprintf("%d varint loops with mask 0x7f, step 7, guard 64, continuation 0x80", n), "a varint loop of the decoder has another constant: "+strings.Join(bad, "; ")+" - multi-byte numbers (ids from 128, lengths from 128, negative timestamps) decode wrongly or are refused")
+		}
+	}
+	c.R.Floor(rule, "varint loops in the generated decoders", total, 30)
 }
